@@ -7,6 +7,7 @@ mod c08;
 mod c11;
 mod c12;
 mod c13;
+mod c14;
 mod c15;
 mod c16;
 mod c18;
@@ -31,6 +32,7 @@ fn main() {
                 "C08" => c08::replay(cases, verd),
                 "C12" => c12::replay(cases, verd),
                 "C13" => c13::replay(cases, verd),
+                "C14" => c14::replay(cases, verd),
                 "C15" => c15::replay(cases, verd),
                 "C16" => c16::replay(cases, verd),
                 "C18" => c18::replay(cases, verd, args.get(5).and_then(|s| s.parse().ok()).unwrap_or(2)),
@@ -52,6 +54,7 @@ fn main() {
                 "C08" => c08::record(seed, n, out, args.get(6).and_then(|s| s.parse().ok()).unwrap_or(200)),
                 "C11" => c11::record(&args[6], seed, n, out),
                 "C13" => c13::record(seed, n, out),
+                "C14" => c14::record(seed, n, out),
                 "C12" => c12::record(seed, n, out, args.get(6).and_then(|s| s.parse().ok()).unwrap_or(16)),
                 "C15" => c15::record(seed, n, out),
                 "C18" => c18::record(&args[6], seed, n, out),
